@@ -43,3 +43,52 @@ class Ev:
 
     def val(self, text, **kw):
         return self.ex.spec_val(self.s, text, env=dict(self.env, **kw), old_st=self.entry)
+
+
+def dict_frame(ex, s_new, s_old, obj, decl_fields, field, key_val=None):
+    """the dictionary in obj.field is the same object and differs from its old content at most at key_val
+    (nowhere if key_val is None)"""
+    ty = decl_fields[field]
+    now = ex.read_field(s_new, obj, field, ty)
+    was = ex.read_field(s_old, obj, field, ty)
+    same_ref = now.t == was.t
+    if ty[0] == 'opt':
+        now, was = now.some(), was.some()
+    ks = sort_of(now.k)
+    kk = z3.Const(fresh_name('fk'), ks)
+    dn, do = ex.dict_dom(s_new, now), ex.dict_dom(s_old, was)
+    vn, vo = ex.dict_vals(s_new, now), ex.dict_vals(s_old, was)
+    if key_val is None:
+        # nothing changed at all: stated as equality of the content maps
+        return z3.And(same_ref, dn == do, vn == vo)
+    key = coerce(key_val, now.k).t
+    body = z3.Implies(kk != key, z3.And(z3.Select(dn, kk) == z3.Select(do, kk), z3.Select(vn, kk) == z3.Select(vo, kk)))
+    return z3.And(same_ref, z3.ForAll([kk], body))
+
+
+def simulate(ex, s, cb, args):
+    """run a scheduled callback symbolically on a copy of state s (its own obligations are not emitted
+    here: they belong to the callee's contract).  Returns the resulting state or None if it forks/raises."""
+    s2 = s.copy()
+    save = ex.collect_only
+    ex.collect_only = True
+    try:
+        outs = ex.call(s2, cb, list(args), {}, None)
+    finally:
+        ex.collect_only = save
+    if len(outs) == 1 and outs[0][0].exc is None:
+        return outs[0][0]
+    return None
+
+
+class quantified:
+    """context manager: build a quantified formula without recording facts about terms that mention bound variables"""
+
+    def __init__(self, ex):
+        self.ex = ex
+
+    def __enter__(self):
+        self.ex.no_facts = getattr(self.ex, 'no_facts', 0) + 1
+
+    def __exit__(self, *a):
+        self.ex.no_facts -= 1
